@@ -1008,3 +1008,135 @@ Proof.
     + simpl. intuition lia.
     + intros e [<-|[<-|[]]]; simpl; lia.
 Qed.
+
+(* ================================================================ matrix level: one step of add_to / multiply_*_and_add_to
+   on the algorithm model = the dense operation on its abstraction (for any row dictionary) *)
+Lemma map_lset {A B} (F : option A -> option B) (l : list (option A)) n x :
+  F None = None -> map F (lset l n None x) = lset (map F l) n None (F x).
+Proof.
+  intros HF. revert l. induction n as [|n IH]; intros l; destruct l as [|h t]; cbn [lset map]; try reflexivity.
+  - rewrite HF. f_equal. apply (IH []).
+  - f_equal. apply IH.
+Qed.
+Lemma lget_map {A B} (F : option A -> option B) (l : list (option A)) j : F None = None -> lget (map F l) j = F (lget l j).
+Proof.
+  intros HF. unfold lget. destruct (j <? 0); [symmetry; exact HF|].
+  rewrite <- HF at 1. apply map_nth.
+Qed.
+Lemma dget_daxpy p a x b y k : 0 < p -> length x = length y -> 0 <= k ->
+  dget (daxpy p a x b y) k = (a * dget x k + b * dget y k) mod p.
+Proof.
+  intros Hp Hl Hk. unfold dget, daxpy. assert (k <? 0 = false) as -> by lia.
+  set (f := fun uv : Z * Z => (a * fst uv + b * snd uv) mod p).
+  assert (Hf0 : f (0, 0) = 0) by (unfold f; cbn [fst snd]; rewrite !Z.mul_0_r; reflexivity).
+  rewrite <- Hf0 at 1. rewrite map_nth. rewrite combine_nth by exact Hl. reflexivity.
+Qed.
+Lemma length_daxpy p a x b y : length x = length y -> length (daxpy p a x b y) = length x.
+Proof. intros H. unfold daxpy. rewrite map_length, combine_length. lia. Qed.
+Lemma length_read_col p nr i2r c : length (read_col p nr i2r c) = nr.
+Proof. unfold read_col. rewrite map_length, seq_length. reflexivity. Qed.
+
+Definition abs_col (p : Z) (nr : nat) (i2r : list Z) (o : option acol) : option dvec :=
+  match o with Some c => Some (read_col p nr i2r c) | None => None end.
+Lemma a_abs_cols p nr m : d_cols (a_abs p nr m) = map (abs_col p nr (a_i2r m)) (a_cols m).
+Proof. reflexivity. Qed.
+
+(* f on columns acts on the contents as the dense axpy with coefficients a b, at every physical row *)
+Lemma a_upd2_refines p nr m s t f a b ct cs : 0 < p ->
+  a_col m t = Some ct -> a_col m s = Some cs -> 0 <= t ->
+  (forall q, c_get p (f ct cs) q = (a * c_get p ct q + b * c_get p cs q) mod p) ->
+  match a_upd2 m s t f with
+  | Some m' => Some (a_abs p nr m') = d_axpy p (a_abs p nr m) a t b s
+  | None => False
+  end.
+Proof.
+  intros Hp Ht Hs Ht0 Hf. unfold a_upd2. rewrite Ht, Hs. unfold d_axpy, d_col. rewrite !a_abs_cols.
+  rewrite !lget_map by reflexivity. unfold a_col in Ht, Hs. rewrite Ht, Hs. cbn [abs_col].
+  f_equal. unfold a_abs. cbn [a_with_cols a_cols a_next a_i2r d_cols d_next d_cls]. f_equal.
+  change (map (fun o => match o with Some c => Some (map (fun r => c_get p c (pget (a_i2r m) (Z.of_nat r))) (seq 0 nr)) | None => None end))
+    with (map (abs_col p nr (a_i2r m))).
+  rewrite map_lset by reflexivity. f_equal. cbn [abs_col]. f_equal.
+  apply dvec_ext.
+  - rewrite length_daxpy, !length_read_col; rewrite ?length_read_col; reflexivity.
+  - intros k Hk. rewrite length_read_col in Hk. rewrite dget_daxpy by (rewrite ?length_read_col; lia).
+    rewrite !read_col_get by exact Hk. apply Hf.
+Qed.
+
+Theorem matrix_add_refines p nr m s t ct cs : 0 < p -> s <> t -> 0 <= t ->
+  a_col m t = Some ct -> a_col m s = Some cs -> c_wf p ct -> c_wf p cs -> same_kind ct cs ->
+  match a_add p m s t with Some m' => Some (a_abs p nr m') = d_add p (a_abs p nr m) s t | None => False end.
+Proof.
+  intros Hp Hne Ht0 Ht Hs Wt Ws K. unfold a_add, d_add. assert (s =? t = false) as -> by lia.
+  apply a_upd2_refines with ct cs; try assumption. intros q. rewrite column_add_content by assumption. f_equal. lia.
+Qed.
+Theorem matrix_mul_target_refines p nr m s c t ct cs : 0 < p -> s <> t -> 0 <= t ->
+  a_col m t = Some ct -> a_col m s = Some cs -> c_wf p ct -> c_wf p cs -> same_kind ct cs ->
+  match a_mta p m s c t with Some m' => Some (a_abs p nr m') = d_mta p (a_abs p nr m) s c t | None => False end.
+Proof.
+  intros Hp Hne Ht0 Ht Hs Wt Ws K. unfold a_mta, d_mta. assert (s =? t = false) as -> by lia.
+  apply a_upd2_refines with ct cs; try assumption. intros q.
+  rewrite column_mul_target_content by (try assumption; apply Z.mod_pos_bound; lia). f_equal. lia.
+Qed.
+Theorem matrix_mul_source_refines p nr m c s t ct cs : 0 < p -> s <> t -> 0 <= t ->
+  a_col m t = Some ct -> a_col m s = Some cs -> c_wf p ct -> c_wf p cs -> same_kind ct cs ->
+  match a_msa (all_fixed false) p m c s t with Some m' => Some (a_abs p nr m') = d_msa p (a_abs p nr m) c s t | None => False end.
+Proof.
+  intros Hp Hne Ht0 Ht Hs Wt Ws K. unfold a_msa, d_msa. assert (s =? t = false) as -> by lia.
+  apply a_upd2_refines with ct cs; try assumption. intros q.
+  rewrite column_mul_source_content by (try assumption; apply Z.mod_pos_bound; lia). f_equal. lia.
+Qed.
+
+(* the column invariant used above is kept by the three operations *)
+Lemma gmerge_forall (P : Z -> Prop) ft fs fu t : forall s,
+  (forall e, In e t -> P (ft (snd e))) -> (forall e, In e s -> P (fs (snd e))) -> (forall a b, P (fu a b)) ->
+  forall e, In e (gmerge ft fs fu t s) -> P (snd e).
+Proof.
+  induction t as [|[rt vt] t' IHt]; intros s Ht Hs Hu.
+  - rewrite gmerge_nil_l. intros e He. apply in_map_iff in He. destruct He as [e0 [<- He0]]. simpl. apply Hs. exact He0.
+  - induction s as [|[rs vs] s' IHs].
+    + change (gmerge ft fs fu ((rt, vt) :: t') []) with (map (fun e => (fst e, ft (snd e))) ((rt, vt) :: t')).
+      intros e He. apply in_map_iff in He. destruct He as [e0 [<- He0]]. simpl. apply Ht. exact He0.
+    + rewrite gmerge_cons. destruct (rt <? rs).
+      * intros e [<-|He]; [simpl; apply (Ht (rt, vt)); left; reflexivity|].
+        revert e He. apply IHt; [intros e He; apply Ht; right; exact He|exact Hs|exact Hu].
+      * destruct (rs <? rt).
+        -- intros e [<-|He]; [simpl; apply (Hs (rs, vs)); left; reflexivity|].
+           revert e He. apply IHs. intros e He. apply Hs. right. exact He.
+        -- assert (Hrec : forall e, In e (gmerge ft fs fu t' s') -> P (snd e)).
+           { apply IHt; [intros e He; apply Ht|intros e He; apply Hs|exact Hu]; right; exact He. }
+           destruct (fu vt vs =? 0); [exact Hrec|].
+           intros e [<-|He]; [simpl; apply Hu|apply Hrec; exact He].
+Qed.
+Theorem sp_ops_reduced p val t s : 0 < p -> reduced p t -> reduced p s ->
+  reduced p (sp_add p t s) /\ reduced p (sp_mta p val t s) /\ reduced p (sp_msa p val t s).
+Proof.
+  intros Hp Rt Rs. unfold sp_add, sp_mta, sp_msa.
+  assert (Hm : forall x, 0 <= x mod p < p) by (intros x; apply Z.mod_pos_bound; lia).
+  assert (G : forall ft fs fu t0 s0, (forall e, In e t0 -> 0 <= ft (snd e) < p) -> (forall e, In e s0 -> 0 <= fs (snd e) < p) ->
+              (forall a b, 0 <= fu a b < p) -> reduced p (gmerge ft fs fu t0 s0)).
+  { intros ft fs fu t0 s0 H1 H2 H3. unfold reduced. apply (gmerge_forall (fun v => 0 <= v < p)); assumption. }
+  split; [|split].
+  - apply G; [exact Rt|exact Rs|intros a b; apply Hm].
+  - destruct (val =? 0); apply G; try exact Rs; try (intros a b; apply Hm); try (intros e []); intros e He; apply Hm.
+  - destruct (val =? 0); [exact Rt|]. apply G; [exact Rt|intros e He; apply Hm|intros a b; apply Hm].
+Qed.
+Theorem column_ops_keep_wf p val t s : 0 < p -> c_wf p t -> c_wf p s -> same_kind t s ->
+  c_wf p (c_add p t s) /\ c_wf p (c_mta p val t s) /\ c_wf p (c_msa (all_fixed false) p val t s).
+Proof.
+  intros Hp Wt Ws K. destruct t as [lt|ht|zt]; destruct s as [ls|hs|zs]; try contradiction; cbn [c_add c_mta c_msa c_wf c_raw] in *.
+  - destruct Wt as [S1 R1]. destruct Ws as [S2 R2].
+    destruct (sp_ops_sorted p val lt ls S1 S2) as [A1 [A2 A3]]. destruct (sp_ops_reduced p val lt ls Hp R1 R2) as [B1 [B2 B3]]. tauto.
+  - tauto.
+  - destruct Wt as [S1 R1]. destruct Ws as [S2 R2].
+    assert (L1 : sorted (lz_live zt)) by (apply lz_live_sorted; exact S1). assert (L2 : sorted (lz_live zs)) by (apply lz_live_sorted; exact S2).
+    assert (Q1 : reduced p (lz_live zt)) by (apply reduced_live; exact R1). assert (Q2 : reduced p (lz_live zs)) by (apply reduced_live; exact R2).
+    destruct (sp_ops_sorted p val (lz_live zt) (lz_live zs) L1 L2) as [A1 [A2 A3]].
+    destruct (sp_ops_reduced p val (lz_live zt) (lz_live zs) Hp Q1 Q2) as [B1 [B2 B3]].
+    unfold lz_add, lz_mta, lz_msa. split; [split|split; split].
+    + destruct (fst zs); [exact S1|]. destruct (fst zt); [exact L2|exact A1].
+    + destruct (fst zs); [exact R1|]. destruct (fst zt); [exact Q2|exact B1].
+    + destruct (val =? 0); cbv beta iota zeta; cbn [fst snd]; [exact L2|]. destruct zt as [[|e0 l0] er]; cbn [fst snd]; [exact L2|exact A2].
+    + destruct (val =? 0); cbv beta iota zeta; cbn [fst snd]; [exact Q2|]. destruct zt as [[|e0 l0] er]; cbn [fst snd]; [exact Q2|exact B2].
+    + destruct (val =? 0); [exact S1|]. destruct (fst zs); [exact S1|exact A3].
+    + destruct (val =? 0); [exact R1|]. destruct (fst zs); [exact R1|exact B3].
+Qed.
